@@ -692,6 +692,8 @@ def method_call(base, name, args=(), kw=()):
 
 
 def attr(base, name):
+    if name == "__name__" and base.op in ("func", "localfunc"):
+        return const(base.a[0].split(".")[-1])  # the name a function was defined under
     if name == "T":
         return call(ext("np.transpose"), (base,))
     return mk("attr", base, name)
@@ -783,13 +785,21 @@ def _tuple_tree(t, k, depth=0):
     return False
 
 
+def _indexable_comp(t):
+    """[E(x) for x in X] / map(f, X) over something that can be indexed (a parameter, an attribute such as .shape)"""
+    return t.op == "comp" and t.a[0] in ("list", "gen") and len(t.a[2]) == 1 and not t.a[3] and t.a[2][0].op in ("attr", "param", "tuple", "list")
+
+
 def proj(t, k):
     """k-th component of an unpacked value."""
     if t.op in ("tuple", "list") and 0 <= k < len(t.a):
         return t.a[k]
     if t.op == "ite" and _tuple_tree(t, k):
         return ite(t.a[0], proj(t.a[1], k), proj(t.a[2], k))
-    if t.op == "comp" and t.a[0] == "list" and len(t.a[2]) == 1 and not t.a[3] and t.a[2][0].op not in ("call",) and k >= 0:
+    if t.op == "ite" and all(_tuple_tree(z, k) or _indexable_comp(z) for z in (t.a[1], t.a[2])):
+        # a, b = (x, y) if c else map(f, pair): every alternative has a k-th component
+        return ite(t.a[0], proj(t.a[1], k), proj(t.a[2], k))
+    if t.op == "comp" and t.a[0] in ("list", "gen") and len(t.a[2]) == 1 and not t.a[3] and t.a[2][0].op not in ("call",) and k >= 0:
         # [E(x) for x in X][k] is E(X[k]) for an indexable X
         X, cid = t.a[2][0], t.a[4]
         el = mk("iter", X, cid)
